@@ -520,10 +520,20 @@ func (r *runner) observe(rng *hx.Rng, where string) map[*domState]*dump {
 		// The arithmetic is outside the bookkeeping model: the run is cut before the session that exposed it.
 		corrupted := false
 		for _, e := range dp.vEnt {
-			if _, ok := d.vecs[vecKey(e.vec)]; !ok {
+			id := idNum(e.key.ItemID)
+			explained := len(e.vec) == 0 // nil vector of a consolidated deleted entry
+			for _, v := range d.idVecs[id] {
+				if vecKey(v) == vecKey(e.vec) {
+					explained = true
+				}
+			}
+			it, live := d.ref[id]
+			// with dedup on and no staging in between, the single index entry of a live id holds its latest vector;
+			// in count-tracking mode anything else is the in-place average (it may coincide with another upserted vector)
+			stale := live && !d.ghosty && !d.restaged && !e.key.IsDeleted && d.mode == ai.DynamicWithVectorCountTracking && vecKey(it.vec) != vecKey(e.vec)
+			if !explained || stale {
 				corrupted = true
-				id := idNum(e.key.ItemID)
-				if it, live := d.ref[id]; live && !d.ghosty && !e.key.IsDeleted {
+				if live && !d.ghosty && !e.key.IsDeleted {
 					r.fail(d, "wrong-vector", fmt.Sprintf("%s: the vector stored for live item %s is %v, the vector upserted was %v", where, e.key.ItemID, e.vec, it.vec))
 				}
 			}
@@ -692,12 +702,29 @@ func (r *runner) execScript(sc script) {
 						d.ghosty = true
 					}
 				}
+				dupInBatch := false
+				seenID := map[int]bool{}
+				for _, it := range items {
+					if seenID[it.ID] {
+						dupInBatch = true
+					}
+					seenID[it.ID] = true
+				}
 				err, _ := safe(func() error {
 					if op.Kind == "ups" {
 						return idx.Upsert(r.ctx, ais[0])
 					}
 					return idx.UpsertBatch(r.ctx, ais)
 				})
+				if err == nil && dupInBatch && d.ghosty {
+					// only the LAST assignment of a repeated id can be read back. Without ghost entries the final state
+					// does not depend on the earlier ones; with ghosts an earlier one may collide with a ghost key (Add
+					// refused, the ghost removed by the next item's cleanup). The oracle is incomplete: stop comparing this domain.
+					r.res.Count("dom.cut_batch_repeats_id_among_ghosts")
+					d.events = d.events[:d.mark]
+					d.dead = true
+					continue
+				}
 				r.res.Count("op." + op.Kind)
 				if err != nil {
 					r.fail(d, "upsert-error", fmt.Sprintf("%s: %s failed: %v", where, op.Kind, err))
